@@ -54,12 +54,67 @@ Qed.
 
 Lemma lbl_eqb_eq a b : lbl_eqb a b = true -> a = b.
 Proof.
-  destruct a as [a1 a2], b as [b1 b2]. unfold lbl_eqb. cbn [fst snd]. intro H.
-  apply andb_true_iff in H as [H1 H2]. apply str_eqb_eq in H1, H2. subst. reflexivity.
+  destruct a as [[a1 a2] a3], b as [[b1 b2] b3]. unfold lbl_eqb, lb_pkg, lb_name, lb_sub. cbn [fst snd]. intro H.
+  apply andb_true_iff in H as [H H3]. apply andb_true_iff in H as [H1 H2].
+  apply str_eqb_eq in H1, H2, H3. subst. reflexivity.
 Qed.
 
 Lemma lbl_eqb_refl a : lbl_eqb a a = true.
-Proof. destruct a. unfold lbl_eqb. cbn [fst snd]. rewrite !str_eqb_refl. reflexivity. Qed.
+Proof. unfold lbl_eqb. rewrite !str_eqb_refl. reflexivity. Qed.
+
+(* ---- the dependency lookups of replaceSequenceLabel (regenerated) --------------------------------------------- *)
+
+(* the code as it stands asks target.DependenciesFor once, with the label as written (subrepo included) *)
+Lemma dep_lookup_pin : dep_lookup = [LookupExact].
+Proof. reflexivity. Qed.
+
+Lemma find_dep_exact w k : find_dep w dep_lookup k = if declared w k then Some k else None.
+Proof. rewrite dep_lookup_pin. cbn [find_dep lookup_key]. destruct (declared w k); reflexivity. Qed.
+
+(* whatever the list of lookups is: the key that is found is a declared dependency, and it differs from the label
+   as written at most by a dropped subrepo (an invariant of the fold over the lookup steps) *)
+Lemma find_dep_sound w steps k k' : find_dep w steps k = Some k' ->
+  declared w k' = true /\ lb_pkg k' = lb_pkg k /\ lb_name k' = lb_name k /\ (lb_sub k' = lb_sub k \/ lb_sub k' = []).
+Proof.
+  induction steps as [|st steps IH]; cbn [find_dep]; [discriminate|].
+  destruct (lookup_key st k) as [k1|] eqn:K; [|exact IH].
+  destruct (declared w k1) eqn:D; [|exact IH].
+  intro H. injection H as <-. split; [exact D|].
+  destruct st; cbn [lookup_key] in K.
+  - injection K as <-. repeat split. left. reflexivity.
+  - destruct (is_nil (lb_sub k)); [discriminate|]. injection K as <-. repeat split. right. reflexivity.
+Qed.
+
+(* with exact lookups only, nothing but the label as written is ever found *)
+Lemma find_dep_only_exact w steps k k' :
+  forallb (fun st => match st with LookupExact => true | _ => false end) steps = true ->
+  find_dep w steps k = Some k' -> k' = k.
+Proof.
+  induction steps as [|st steps IH]; cbn [find_dep forallb]; [discriminate|].
+  intro H. apply andb_true_iff in H as [Hs Hr]. destruct st; [|discriminate]. cbn [lookup_key].
+  destruct (declared w k); [intro E; injection E as <-; reflexivity | exact (IH Hr)].
+Qed.
+
+(* the labels the rule names as sources, tools and deps *)
+Definition declared_labels (w : world) : list lbl :=
+  flat_map (fun i => match input_label i with Some l => [l] | None => [] end) (w_srcs w ++ w_tools w) ++ w_deps w.
+
+Lemma existsb_has_label_in k l : existsb (has_label k) l = true ->
+  In k (flat_map (fun i => match input_label i with Some l => [l] | None => [] end) l).
+Proof.
+  intro H. apply existsb_exists in H as [i [Hi E]]. apply in_flat_map. exists i. split; [exact Hi|].
+  unfold has_label in E. destruct (input_label i) as [j|]; [|discriminate].
+  apply lbl_eqb_eq in E. subst j. left. reflexivity.
+Qed.
+
+(* `declared` is exact: package, name and subrepo of some source, tool or dep all coincide with the key *)
+Lemma declared_in w k : declared w k = true -> In k (declared_labels w).
+Proof.
+  unfold declared, declared_labels. intro H. apply orb_true_iff in H as [H|H].
+  - apply in_or_app. left. rewrite flat_map_app. apply in_or_app.
+    apply orb_true_iff in H as [H|H]; [left | right]; exact (existsb_has_label_in _ _ H).
+  - apply in_or_app. right. apply existsb_exists in H as [j [Hj E]]. apply lbl_eqb_eq in E. subst j. exact Hj.
+Qed.
 
 Lemma lookup_tgt_some l g d : lookup_tgt l g = Some d -> In d g /\ t_lbl d = l.
 Proof.
@@ -80,8 +135,8 @@ Proof. destruct a; reflexivity. Qed.
 
 Lemma out_dir_ne d : is_nil (out_dir d) = false.
 Proof.
-  unfold out_dir, join. destruct (t_binary d); cbn [is_nil bin_dir gen_dir s];
-    destruct (fst (t_lbl d)); reflexivity.
+  unfold out_dir. generalize (join (lb_sub (t_lbl d)) (lb_pkg (t_lbl d))). intro x.
+  unfold join. destruct (t_binary d); cbn [is_nil bin_dir gen_dir s]; destruct x; reflexivity.
 Qed.
 
 Lemma covers_refl x : covers x x = true.
@@ -300,12 +355,12 @@ Proof.
 Qed.
 
 Lemma all_outs_of_spec w k d o :
-  lookup_tgt k (w_graph w) = Some d -> In o (t_outs d) -> In (join (fst (t_lbl d)) o) (all_outs_of w k).
+  lookup_tgt k (w_graph w) = Some d -> In o (t_outs d) -> In (join (lb_pkg (t_lbl d)) o) (all_outs_of w k).
 Proof. intros L Ho. unfold all_outs_of. rewrite L. unfold prefixed. apply in_map. exact Ho. Qed.
 
 Lemma in_tmp_layout_placed w k d o :
   placed_whole w k d = true -> lookup_tgt k (w_graph w) = Some d -> In o (t_outs d) ->
-  In (join (fst (t_lbl d)) o) (tmp_layout w).
+  In (join (lb_pkg (t_lbl d)) o) (tmp_layout w).
 Proof.
   intros P L Ho. unfold placed_whole in P. unfold tmp_layout. apply in_or_app.
   apply orb_true_iff in P as [P|P].
@@ -329,7 +384,7 @@ Proof. intros Hr Hc. cbn [present]. apply existsb_exists. exists r. split; assum
 Definition dep_ok (w : world) (k : lbl) (d : tgt) (tool dir outp hash : bool) (ep : str) : Prop :=
   hash = true \/ outp = true \/ (is_nil ep = true /\ tool = true)
   \/ (tool = false /\ placed_whole w k d = true
-      /\ (dir && is_nil (fst (t_lbl d)) && (negb (is_nil ep) || negb (is_nil (t_outs d))) = false)).
+      /\ (dir && is_nil (lb_pkg (t_lbl d)) && (negb (is_nil ep) || negb (is_nil (t_outs d))) = false)).
 
 Lemma car_present w (runnable multiple dir outp hash : bool) tool d ep inp text ps k :
   wf_tgt d = true -> lookup_tgt k (w_graph w) = Some d -> declared w k = true ->
@@ -380,12 +435,12 @@ Proof.
         destruct OK as [OK|[OK|[[_ OK]|[_ [P R]]]]]; [discriminate OK | discriminate OK | discriminate OK |].
         pose proof (in_tmp_layout_placed w k d o P L Ho) as Hin.
         unfold mk_piece, handle_dir. destruct dir; cbn [present].
-        -- destruct (is_nil (fst (t_lbl d))) eqn:Epkg.
+        -- destruct (is_nil (lb_pkg (t_lbl d))) eqn:Epkg.
            ++ exfalso. try rewrite Epkg in R. try rewrite Eep in R. cbn [andb negb orb] in R. apply negb_false_iff in R.
               destruct (t_outs d); [destruct Ho | discriminate].
-           ++ cbn [negb andb]. apply existsb_exists. exists (join (fst (t_lbl d)) o). split; [exact Hin|].
+           ++ cbn [negb andb]. apply existsb_exists. exists (join (lb_pkg (t_lbl d)) o). split; [exact Hin|].
               apply dir_of_join; assumption.
-        -- apply existsb_exists. exists (join (fst (t_lbl d)) o). split; [exact Hin | apply covers_refl].
+        -- apply existsb_exists. exists (join (lb_pkg (t_lbl d)) o). split; [exact Hin | apply covers_refl].
   - (* an entry point *)
     destruct (assoc ep (t_eps d)) as [out|] eqn:A; [|discriminate].
     injection H as _ <-. destruct Hp as [<-|[]].
@@ -404,18 +459,18 @@ Proof.
     + destruct OK as [OK|[OK|[[OK _]|[_ [P R]]]]]; [discriminate OK | discriminate OK | rewrite Eep in OK; discriminate OK |].
       pose proof (in_tmp_layout_placed w k d o P L Ho) as Hin.
       unfold mk_piece, handle_dir. destruct dir; cbn [present].
-      * destruct (is_nil (fst (t_lbl d))) eqn:Epkg.
+      * destruct (is_nil (lb_pkg (t_lbl d))) eqn:Epkg.
         -- exfalso. try rewrite Epkg in R. try rewrite Eep in R. cbn [andb negb orb] in R. discriminate R.
-        -- cbn [negb andb]. apply existsb_exists. exists (join (fst (t_lbl d)) o). split; [exact Hin|].
+        -- cbn [negb andb]. apply existsb_exists. exists (join (lb_pkg (t_lbl d)) o). split; [exact Hin|].
            apply dir_of_join; assumption.
-      * apply existsb_exists. exists (join (fst (t_lbl d)) o). split; [exact Hin | apply covers_join; assumption].
+      * apply existsb_exists. exists (join (lb_pkg (t_lbl d)) o). split; [exact Hin | apply covers_join; assumption].
 Qed.
 
 (* ---- the sequence level ------------------------------------------------------------------------------------------- *)
 
 Lemma wf_world_tgt w k d : wf_world w = true -> lookup_tgt k (w_graph w) = Some d -> wf_tgt d = true.
 Proof.
-  intros WF L. unfold wf_world in WF. rewrite forallb_forall in WF. apply WF. exact (proj1 (lookup_tgt_some _ _ _ L)).
+  intros WF L. unfold wf_world in WF. apply andb_true_iff in WF as [_ WF]. rewrite forallb_forall in WF. apply WF. exact (proj1 (lookup_tgt_some _ _ _ L)).
 Qed.
 
 (* C37_exists, as far as the code allows: a build-command sequence in none of the defect classes expands to
@@ -429,10 +484,10 @@ Proof.
   destruct (looks_like_label inp).
   - destruct (split_entry_point inp) as [lbl_s ep].
     destruct (C20.try_parse lbl_s (w_pkg w) []) as [l| |]; try discriminate.
-    unfold replace_label in H.
-    destruct (is_nil (C20.l_sub l)); [|discriminate]. cbn [negb] in D.
-    set (k := (C20.l_pkg l, C20.l_name l)) in *.
+    unfold replace_label in H. cbv zeta in H, D.
+    set (k := label_key l) in *.
     destruct (lbl_eqb k (t_lbl (w_self w))); [discriminate D|].
+    rewrite find_dep_exact in H.
     destruct (declared w k) eqn:Dk; [|discriminate].
     destruct (lookup_tgt k (w_graph w)) as [d|] eqn:L; [|discriminate].
     apply (car_present w runnable multiple dir outp hash (is_tool w k) d ep lbl_s text ps k
@@ -443,11 +498,11 @@ Proof.
     + destruct (is_tool w k); [left; split; reflexivity|]. right.
       destruct (placed_whole w k d); cbn [negb] in D; [|discriminate D].
       split; [reflexivity|]. split; [reflexivity|]. cbn [negb orb].
-      destruct (dir && is_nil (fst (t_lbl d)) && negb (is_nil (t_outs d))); [discriminate D | reflexivity].
+      destruct (dir && is_nil (lb_pkg (t_lbl d)) && negb (is_nil (t_outs d))); [discriminate D | reflexivity].
     + destruct (is_tool w k); [discriminate D|]. right.
       destruct (placed_whole w k d); cbn [negb] in D; [|discriminate D].
       split; [reflexivity|]. split; [reflexivity|]. cbn [negb orb].
-      destruct (dir && is_nil (fst (t_lbl d))); [discriminate D | reflexivity].
+      destruct (dir && is_nil (lb_pkg (t_lbl d))); [discriminate D | reflexivity].
   - destruct (runnable && existsb (input_string_is inp) (w_tools w)).
     { injection H as _ <-. intros p [<-|[]]. reflexivity. }
     destruct hash.
@@ -486,9 +541,9 @@ Proof.
   destruct (looks_like_label inp).
   - destruct (split_entry_point inp) as [lbl_s ep].
     destruct (C20.try_parse lbl_s (w_pkg w) []) as [l| |]; try discriminate.
-    unfold replace_label in H. destruct (is_nil (C20.l_sub l)); [|discriminate].
+    unfold replace_label in H. cbv zeta in H.
     destruct (lbl_eqb _ _); [exact (car_shape _ _ _ _ _ _ _ _ _ _ _ H)|].
-    destruct (declared _ _); [|discriminate]. destruct (lookup_tgt _ _); [|discriminate].
+    destruct (find_dep _ _ _); [|discriminate]. destruct (lookup_tgt _ _); [|discriminate].
     exact (car_shape _ _ _ _ _ _ _ _ _ _ _ H).
   - destruct (runnable && existsb (input_string_is inp) (w_tools w)).
     { injection H as <- <-. right. eexists. split; reflexivity. }
@@ -526,9 +581,8 @@ Definition names_label_not_dependency (w : world) (inp : str) : bool :=
   (let (lbl_s, _) := split_entry_point inp in
    match C20.try_parse lbl_s (w_pkg w) [] with
    | C20.Parsed l =>
-       let k := (C20.l_pkg l, C20.l_name l) in
-       negb (is_nil (C20.l_sub l))
-       || (negb (lbl_eqb k (t_lbl (w_self w))) && negb (declared w k && is_some (lookup_tgt k (w_graph w))))
+       let k := label_key l in      (* package, name and subrepo *)
+       negb (lbl_eqb k (t_lbl (w_self w))) && negb (declared w k && is_some (lookup_tgt k (w_graph w)))
    | C20.Invalid => true
    | C20.OutOfFuel => false
    end).
@@ -545,24 +599,25 @@ Proof.
   cbv beta iota. intro H. apply andb_true_iff in H as [-> H].
   destruct (split_entry_point inp) as [lbl_s ep].
   destruct (C20.try_parse lbl_s (w_pkg w) []) as [l| |]; [|reflexivity|discriminate].
-  unfold replace_label. destruct (is_nil (C20.l_sub l)); [|reflexivity]. cbn [negb orb] in H.
-  apply andb_true_iff in H as [H1 H2]. apply negb_true_iff in H1, H2. rewrite H1.
+  unfold replace_label. cbv zeta in *.
+  apply andb_true_iff in H as [H1 H2]. apply negb_true_iff in H1, H2. rewrite H1. rewrite find_dep_exact.
   destruct (declared w _); [|reflexivity]. destruct (lookup_tgt _ _); [discriminate H2 | reflexivity].
 Qed.
 
 (* the argument resolves to the dependency d *)
 Definition resolves (w : world) (inp lbl_s ep : str) (d : tgt) : Prop :=
   looks_like_label inp = true /\ split_entry_point inp = (lbl_s, ep) /\
-  exists l, C20.try_parse lbl_s (w_pkg w) [] = C20.Parsed l /\ is_nil (C20.l_sub l) = true /\
-            lbl_eqb (C20.l_pkg l, C20.l_name l) (t_lbl (w_self w)) = false /\
-            declared w (C20.l_pkg l, C20.l_name l) = true /\
-            lookup_tgt (C20.l_pkg l, C20.l_name l) (w_graph w) = Some d.
+  exists l, C20.try_parse lbl_s (w_pkg w) [] = C20.Parsed l /\
+            lbl_eqb (label_key l) (t_lbl (w_self w)) = false /\
+            declared w (label_key l) = true /\
+            lookup_tgt (label_key l) (w_graph w) = Some d.
 
 Lemma resolves_eq w test fl inp lbl_s ep d : resolves w inp lbl_s ep d ->
   exists tool, replace_sequence w test fl inp = check_and_replace w test fl false tool true d ep lbl_s.
 Proof.
-  destruct fl as [[[[runnable multiple] dir] outp] hash]. intros [LL [SP [l [P [S [NS [D L]]]]]]].
-  unfold replace_sequence. cbv beta iota. rewrite LL, SP, P. unfold replace_label. rewrite S, NS, D, L.
+  destruct fl as [[[[runnable multiple] dir] outp] hash]. intros [LL [SP [l [P [NS [D L]]]]]].
+  unfold replace_sequence. cbv beta iota. rewrite LL, SP, P. unfold replace_label. cbv zeta.
+  rewrite NS, find_dep_exact, D, L.
   eexists. reflexivity.
 Qed.
 
@@ -619,13 +674,122 @@ Proof.
   destruct (looks_like_label inp).
   - destruct (split_entry_point inp) as [lbl_s ep].
     destruct (C20.try_parse lbl_s (w_pkg w) []) as [l| |] eqn:P; [|discriminate|].
-    + unfold replace_label. destruct (is_nil (C20.l_sub l)); [|discriminate].
+    + unfold replace_label. cbv zeta.
       destruct (lbl_eqb _ _); [apply car_no_fuel|].
-      destruct (declared _ _); [|discriminate]. destruct (lookup_tgt _ _); [apply car_no_fuel | discriminate].
+      destruct (find_dep _ _ _); [|discriminate]. destruct (lookup_tgt _ _); [apply car_no_fuel | discriminate].
     + exfalso. exact (C20_Parse.try_parse_never_out_of_fuel _ _ _ P).
   - destruct (runnable && existsb (input_string_is inp) (w_tools w)); [discriminate|].
     destruct hash; [discriminate|]. destruct (has_prefix (s "/") inp); discriminate.
 Qed.
+
+(* ---- the exact label, subrepo included ---------------------------------------------------------------------------- *)
+
+(* C37_exact_label: a label-like argument expands only if the label as written - package, name AND subrepo - is the
+   rule itself, or is literally one of the labels the rule names as a source, tool or dep and that target exists.
+   (Uses dep_lookup = [LookupExact], regenerated from replaceSequenceLabel: a retry under another subrepo, like the
+   cross-compile TODO in the source, would have to be listed there and breaks this proof.) *)
+Theorem expands_only_exact_dependency w test fl inp text ps :
+  looks_like_label inp = true -> replace_sequence w test fl inp = ROk (text, ps) ->
+  exists l, C20.try_parse (fst (split_entry_point inp)) (w_pkg w) [] = C20.Parsed l /\
+    (label_key l = t_lbl (w_self w)
+     \/ (In (label_key l) (declared_labels w)
+         /\ exists d, lookup_tgt (label_key l) (w_graph w) = Some d /\ In d (w_graph w) /\ t_lbl d = label_key l)).
+Proof.
+  destruct fl as [[[[runnable multiple] dir] outp] hash]. unfold replace_sequence. cbv beta iota. intros -> H.
+  destruct (split_entry_point inp) as [lbl_s ep]. cbn [fst].
+  destruct (C20.try_parse lbl_s (w_pkg w) []) as [l| |]; try discriminate.
+  exists l. split; [reflexivity|]. unfold replace_label in H. cbv zeta in H.
+  destruct (lbl_eqb (label_key l) (t_lbl (w_self w))) eqn:E; [left; exact (lbl_eqb_eq _ _ E)|].
+  rewrite find_dep_exact in H. right.
+  destruct (declared w (label_key l)) eqn:D; [|discriminate].
+  destruct (lookup_tgt (label_key l) (w_graph w)) as [d|] eqn:L; [|discriminate].
+  split; [exact (declared_in _ _ D)|]. exists d. destruct (lookup_tgt_some _ _ _ L) as [L1 L2]. repeat split; assumption.
+Qed.
+
+(* the same label in another repository is another label: naming ///sub//p:n while depending on //p:n (or the other
+   way round, or on another subrepo) is rejected *)
+Theorem rejects_other_subrepo w test fl inp l :
+  looks_like_label inp = true -> C20.try_parse (fst (split_entry_point inp)) (w_pkg w) [] = C20.Parsed l ->
+  label_key l <> t_lbl (w_self w) -> ~ In (label_key l) (declared_labels w) ->
+  replace_sequence w test fl inp = RErr.
+Proof.
+  intros LL P NS ND. destruct (replace_sequence w test fl inp) as [[text ps]| | |] eqn:H; [| reflexivity | |].
+  - exfalso. destruct (expands_only_exact_dependency _ _ _ _ _ _ LL H) as [l' [P' [S|[D _]]]];
+      rewrite P in P'; injection P' as <-; [exact (NS S) | exact (ND D)].
+  - exfalso. revert H. destruct fl as [[[[runnable multiple] dir] outp] hash]. unfold replace_sequence. cbv beta iota.
+    rewrite LL. destruct (split_entry_point inp) as [lbl_s ep]. cbn [fst] in P. rewrite P.
+    unfold replace_label. cbv zeta.
+    destruct (lbl_eqb (label_key l) (t_lbl (w_self w))) eqn:E; [exfalso; exact (NS (lbl_eqb_eq _ _ E))|].
+    rewrite find_dep_exact. destruct (declared w (label_key l)) eqn:D; [exfalso; exact (ND (declared_in _ _ D))|].
+    discriminate.
+  - exfalso. exact (never_out_of_fuel _ _ _ _ H).
+Qed.
+
+(* ---- quoting each path: splitting the expansion gives the paths back --------------------------------------------- *)
+
+(* strings.Join(xs, " ") *)
+Fixpoint join_sp (xs : list str) : str :=
+  match xs with
+  | [] => []
+  | x :: r => match r with [] => x | _ :: _ => x ++ 32%N :: join_sp r end
+  end.
+
+Lemma out_loop_pin : out_loop_writes = ["quote"; "quote"; "sep"]%string /\ s out_loop_sep = [32%N].
+Proof. split; reflexivity. Qed.
+
+(* C37_split_join: for every list of paths, each non-empty and made of ordinary characters and the operators
+   | & ; ( ) < > (name_ok: no blank, no newline, none of dollar, backquote, backslash, double quote, single quote,
+   star, question mark, open bracket, hash, tilde, equals, percent, braces - the characters `quote`
+   cannot protect, because it only adds double quotes and only when it sees an operator), shell-splitting the
+   space-joined list of the individually quoted paths returns exactly the paths.  By induction on the list. *)
+Theorem split_join_quote ps : forallb name_ok ps = true -> shell_words (join_sp (map quote ps)) = Some ps.
+Proof.
+  unfold shell_words. induction ps as [|p ps IH]; intro H; [reflexivity|].
+  cbn [forallb] in H. apply andb_true_iff in H as [Hp Hps].
+  assert (piece_ok (PFile InTmp p) = true) as OK by exact (name_ok_word_ok p Hp).
+  cbn [map join_sp]. destruct ps as [|q ps].
+  - cbn [map]. rewrite <- (app_nil_r (quote p)). exact (sw_piece (PFile InTmp p) [] OK).
+  - cbn [map]. change (quote p ++ 32%N :: join_sp (quote q :: map quote ps))
+      with (piece_text (PFile InTmp p) ++ 32%N :: join_sp (map quote (q :: ps))).
+    rewrite (sw_piece (PFile InTmp p) _ OK). cbn [piece_word sw]. change (is_blank 32) with true. cbv iota.
+    rewrite (IH Hps). reflexivity.
+Qed.
+
+Lemma name_ok_dq_safe x : name_ok x = true -> dq_safe x = true.
+Proof.
+  unfold name_ok. intro H. apply andb_true_iff in H as [_ H]. rewrite forallb_forall in H.
+  apply forallb_forall. intros c Hc. specialize (H c Hc). unfold name_char_ok in H.
+  apply orb_true_iff in H as [H|H].
+  - apply andb_true_iff in H as [_ H]. apply negb_true_iff in H.
+    destruct (dq_active c) eqn:D; [rewrite (unsafe_of_dq_active _ D) in H; discriminate | reflexivity].
+  - rewrite (operator_not_dq_active _ H). reflexivity.
+Qed.
+
+Lemma dq_safe_app a b : dq_safe (a ++ b) = dq_safe a && dq_safe b.
+Proof. unfold dq_safe. apply forallb_app. Qed.
+
+Lemma join_sp_dq_safe ps : forallb name_ok ps = true -> dq_safe (join_sp ps) = true.
+Proof.
+  induction ps as [|p ps IH]; intro H; [reflexivity|].
+  cbn [forallb] in H. apply andb_true_iff in H as [Hp Hps]. cbn [join_sp]. destruct ps as [|q ps].
+  - exact (name_ok_dq_safe p Hp).
+  - rewrite dq_safe_app, (name_ok_dq_safe p Hp). cbn [andb]. change (32%N :: join_sp (q :: ps)) with ([32%N] ++ join_sp (q :: ps)).
+    rewrite dq_safe_app, (IH Hps). reflexivity.
+Qed.
+
+(* ... whereas quoting the joined list once (the tempting simplification quote(strings.Join(paths, " "))) makes ONE
+   word of two or more such paths as soon as one of them holds an operator: it is not a refinement of the above *)
+Theorem quote_joined_once_is_one_word ps : forallb name_ok ps = true -> needs_quote (join_sp ps) = true ->
+  shell_words (quote (join_sp ps)) = Some [join_sp ps].
+Proof.
+  intros H Q. unfold quote. rewrite Q. unfold shell_words.
+  change (34%N :: join_sp ps ++ [34%N]) with (34%N :: join_sp ps ++ 34%N :: []).
+  rewrite (sw_quoted (join_sp ps) [] [] false (join_sp_dq_safe ps H)). reflexivity.
+Qed.
+
+Corollary quote_joined_once_wrong p q ps : forallb name_ok (p :: q :: ps) = true ->
+  needs_quote (join_sp (p :: q :: ps)) = true -> shell_words (quote (join_sp (p :: q :: ps))) <> Some (p :: q :: ps).
+Proof. intros H Q. rewrite (quote_joined_once_is_one_word _ H Q). discriminate. Qed.
 
 (* ---- witnesses of the defects of the unchanged code ------------------------------------------------------------------ *)
 
@@ -634,11 +798,11 @@ Definition locs_flags : flags := (false, true, false, false, false).       (* $(
 Definition exe_flags : flags := (true, false, false, false, false).        (* $(exe) *)
 Definition dir_flags : flags := (false, true, true, false, false).         (* $(dir) *)
 
-Definition self_p : tgt := T (s "p", s "gen") [s "gen.out"] [] [] false.
+Definition self_p : tgt := T (s "p", s "gen", []) [s "gen.out"] [] [] false.
 
 (* an output named `a b.txt` *)
 Definition w_space : world :=
-  mk_world self_p [ILabel (s "p", s "sp")] [] [] [T (s "p", s "sp") [s "a b.txt"] [] [] false] (s "/r").
+  mk_world self_p [ILabel (s "p", s "sp", [])] [] [] [T (s "p", s "sp", []) [s "a b.txt"] [] [] false] (s "/r").
 
 Lemma loc_flags_in : In loc_flags (map snd passes).
 Proof. left. reflexivity. Qed.
@@ -659,11 +823,11 @@ Proof. intros [_ H]. vm_compute in H. discriminate H. Qed.
 Definition w_nofile : world := mk_world self_p [] [] [] [] (s "/r").
 (* a source //p:named|n1 *)
 Definition w_named : world :=
-  mk_world self_p [IAnnot (s "p", s "named") (s "n1")] [] []
-           [T (s "p", s "named") [s "n1.txt"; s "n2.txt"] [(s "n1", [s "n1.txt"]); (s "n2", [s "n2.txt"])] [] false] (s "/r").
+  mk_world self_p [IAnnot (s "p", s "named", []) (s "n1")] [] []
+           [T (s "p", s "named", []) [s "n1.txt"; s "n2.txt"] [(s "n1", [s "n1.txt"]); (s "n2", [s "n2.txt"])] [] false] (s "/r").
 (* a tool with an entry point *)
 Definition w_toolep : world :=
-  mk_world self_p [] [ILabel (s "p", s "tool")] [] [T (s "p", s "tool") [s "bin/t.sh"] [] [(s "main", s "bin/t.sh")] true] (s "/r").
+  mk_world self_p [] [ILabel (s "p", s "tool", [])] [] [T (s "p", s "tool", []) [s "bin/t.sh"] [] [(s "main", s "bin/t.sh")] true] (s "/r").
 (* a dependency in the root package *)
 Definition w_rootdir : world :=
-  mk_world (T ([], s "gen") [s "gen.out"] [] [] false) [ILabel ([], s "rootdep")] [] [] [T ([], s "rootdep") [s "r.txt"] [] [] false] (s "/r").
+  mk_world (T ([], s "gen", []) [s "gen.out"] [] [] false) [ILabel ([], s "rootdep", [])] [] [] [T ([], s "rootdep", []) [s "r.txt"] [] [] false] (s "/r").
